@@ -284,6 +284,9 @@ func c16RunOnce(hashLimit int, ops []c16Op, c16Unit time.Duration) (obs []string
 		case 'E':
 			c.mu.Lock()
 			c.log = append(c.log, fmt.Sprintf("e:%d", c.ms()))
+			if obs == nil { // the observation ends here: nothing after the end marker is reported
+				obs = append([]string{}, c.log...)
+			}
 			c.mu.Unlock()
 		}
 	}
@@ -292,7 +295,9 @@ func c16RunOnce(hashLimit int, ops []c16Op, c16Unit time.Duration) (obs []string
 		vu.Stat("noisy")
 	}
 	c.mu.Lock()
-	obs = append([]string{}, c.log...)
+	if obs == nil {
+		obs = append([]string{}, c.log...)
+	}
 	// open everything so that Stop() cannot hang on a callback
 	c.gateClosed = false
 	c.cond.Broadcast()
